@@ -317,6 +317,7 @@ class Section(Entity):
         objs.extend(self.referring_blocks)
         objs.extend(self.referring_groups)
         objs.extend(self.referring_data_arrays)
+        objs.extend(self.referring_data_frames)
         objs.extend(self.referring_tags)
         objs.extend(self.referring_multi_tags)
         objs.extend(self.referring_sources)
@@ -347,6 +348,16 @@ class Section(Entity):
                                if (da.metadata is not None and
                                    da.metadata.id == self.id))
         return data_arrays
+
+    @property
+    def referring_data_frames(self):
+        nf = self.file
+        data_frames = []
+        for blk in nf.blocks:
+            data_frames.extend(df for df in blk.data_frames
+                               if (df.metadata is not None and
+                                   df.metadata.id == self.id))
+        return data_frames
 
     @property
     def referring_tags(self):
